@@ -647,7 +647,10 @@ func (c *fileCtx) rangeStmt(n *ast.RangeStmt, isLabeled bool) {
 		case isBlank(n.Key):
 			fmt.Fprintf(&b, "_, __ok%d := __simrt.Recv2(%d, %s); if !__ok%d { break };", id, id, x, id)
 		case n.Tok == token.DEFINE:
-			fmt.Fprintf(&b, "%s, __ok%d := __simrt.Recv2(%d, %s); if !__ok%d { break };", c.text(n.Key), id, id, x, id)
+			// (the loop variable is declared once per loop, as Go before 1.22 does: a
+			// closure that captures it sees later values)
+			b.Reset()
+			fmt.Fprintf(&b, "for __ch%d, %s := __simrt.ChanAndZero(%s); ; { var __ok%d bool; %s, __ok%d = __simrt.Recv2(%d, %s); if !__ok%d { break };", id, c.text(n.Key), c.text(n.X), id, c.text(n.Key), id, id, x, id)
 		default:
 			fmt.Fprintf(&b, "__v%d, __ok%d := __simrt.Recv2(%d, %s); if !__ok%d { break }; %s = __v%d;", id, id, id, x, id, c.text(n.Key), id)
 		}
@@ -678,8 +681,24 @@ func (c *fileCtx) rangeStmt(n *ast.RangeStmt, isLabeled bool) {
 		// may or may not produce.
 		var b strings.Builder
 		it := fmt.Sprintf("__it%d", id)
-		fmt.Fprintf(&b, "for %s := __simrt.RangeMap(%d, %s); %s.Next(); { ", it, id, x, it)
 		kb, vb := isBlank(n.Key), isBlank(n.Value)
+		if n.Tok == token.DEFINE && (!kb || !vb) {
+			// The loop variables are declared ONCE per loop (in the init statement),
+			// as Go before 1.22 does for the range statement this replaces: a closure
+			// that captures them sees the values of later iterations.
+			switch {
+			case !kb && !vb:
+				fmt.Fprintf(&b, "for %s, %s, %s := __simrt.RangeMapKV(%d, %s); %s.Next(); { %s, %s = %s.K, (%s)[%s.K];", it, c.text(n.Key), c.text(n.Value), id, x, it, c.text(n.Key), c.text(n.Value), it, x, it)
+			case !kb:
+				fmt.Fprintf(&b, "for %s, %s := __simrt.RangeMapK(%d, %s); %s.Next(); { %s = %s.K;", it, c.text(n.Key), id, x, it, c.text(n.Key), it)
+			default:
+				fmt.Fprintf(&b, "for %s, %s := __simrt.RangeMapV(%d, %s); %s.Next(); { %s = (%s)[%s.K];", it, c.text(n.Value), id, x, it, c.text(n.Value), x, it)
+			}
+			c.edits = append(c.edits, edit{c.off(n.For), c.off(n.Body.Lbrace) + 1, b.String()})
+			sum.MapRanges++
+			return
+		}
+		fmt.Fprintf(&b, "for %s := __simrt.RangeMap(%d, %s); %s.Next(); { ", it, id, x, it)
 		switch {
 		case n.Key == nil && n.Value == nil:
 		case n.Tok == token.DEFINE:
